@@ -468,6 +468,11 @@ def run(ctx, config='rel-all'):
     if config != 'rel-default':
         from . import c13 as _c13
         _c13.run(_runner.Sub(ctx, 'R10', 'C13', only={'O2'}, match=_c13.growing_clause), config)
+    # ---- R12 (requirement side, every allocating method incl. ones added later): whatever reference / slice / pointer a public
+    # `alloc*` / `try_alloc*` method returns on success points into a reservation made in that very call - never at a dangling or
+    # static address chosen by a shortcut (`if src.is_empty() { return &mut [] }`, a zero-sized fast path): such a result is not
+    # aligned to MIN_ALIGN, was never initialised by the caller's initialiser, and is not inside the arena
+    returned_points_into_reservation(ctx, db, config, 'R12')
     # value methods: the value is written exactly at the reserved pointer, once
     for name in VALUE_METHODS:
         b = arena.bump_method(db, name)
@@ -517,3 +522,49 @@ def run(ctx, config='rel-all'):
                     fn = arena.short(arena.innermost(e))
                     c01.check_finger_store(ctx, key, I, res, e, fn, ords.get((fn, e.block, e.span), 0), loc(e.span), set(c01.ENTRY_AXIOMS.get(key, ())), rules={'R1': 'R5', 'O2': 'R5', 'R3': 'R5'})
     ctx.floor('R5', n5, 8, 'finger-raising stores (reclaim / rewind) over the entry points')
+
+
+
+def returned_points_into_reservation(ctx, db, config, rule):
+    n = 0
+    for b in db.fn_bodies():
+        m = b['meta']
+        if b['kind'] != 'assoc_fn' or m.get('impl_adt') != 'Bump' or m.get('impl_trait') or not m.get('pub'):
+            continue
+        nm = m.get('name') or ''
+        if not (nm.startswith('alloc') or nm.startswith('try_alloc')) or nm in ('allocated_bytes', 'allocated_bytes_including_metadata', 'allocation_limit', 'allocation_limit_remaining'):
+            continue
+        out = m.get('output') or ''
+        if not ('&' in out or 'NonNull' in out):
+            continue
+        I, r = arena.run_fn(ctx, b['id'], config)
+        resv = [e.ret for e in r.events if e.kind == 'call' and e.callee and 'Bump' in e.callee and e.callee.split('::')[-1] in ('try_alloc_layout', 'alloc_layout', 'try_alloc_layout_fast', 'alloc_layout_slow') and e.ret is not None]
+        if nm in ('alloc_layout', 'try_alloc_layout'):
+            continue        # the reservation primitives themselves: C01 / C04
+        pays = arena.success_payloads(I, r)
+        if not pays:
+            continue
+        n += 1
+        def leaves(t, depth=0):
+            # every value a (merged, Option / Result wrapped) reservation result can stand for
+            if depth > 12 or not isinstance(t, tuple) or not t:
+                return [t]
+            if t[0] == 'phi':
+                return [y for _, v in t[2] for y in leaves(v, depth + 1)]
+            if t[0] == 'agg' and t[1] in ('Option', 'Result'):
+                return leaves(field_of(t, '0'), depth + 1) if t[2] in ('Some', 'Ok') else []
+            return [t]
+        rleaves = set()
+        for rv in resv:
+            rleaves.update(leaves(rv))
+            rleaves.add(rv)
+        bad = None
+        for t, fs in pays:
+            for x in arena.phi_leaves(arena.pointer_of(t)):
+                if not any(rv == x or rv in subterms(x) for rv in rleaves if isinstance(rv, tuple) and rv and rv[0] not in ('c',)):
+                    bad = x
+        if bad is None:
+            ctx.ok(rule, 'Bump::%s: every value it returns points into a reservation made in the call' % nm, '%d return alternatives, %d reservation calls' % (len(pays), len(resv)))
+        else:
+            ctx.violation(rule, 'Bump::' + nm, 'returns-unreserved', 'Bump::%s can return %s, which does not derive from any reservation made in the call (a dangling / static address from a shortcut path): not MIN_ALIGN-aligned, not in the arena, not filled by the initialiser' % (nm, show(bad)[:90]), b.get('span'))
+    ctx.floor(rule, n, 20, 'allocating methods of Bump checked for what they return')
